@@ -378,3 +378,11 @@ package openapi3
 //@   ensures result == (x == nil || (x.Ref == "" && x.Value == nil))
 //@   tag C20
 //@ propertylevel C02 other walk completeness (43 obligations discharged by a scan of the SSA of the functions reachable from ResolveRefsIn: each reference-holding field is read) plus one SMT-proved contract (JSON-pointer unescaping order); the statement's core - a resolved object equals the designated one - is not decided
+
+// C20: fragment resolution indexes slices and struct fields through reflect only within range.
+//@ fieldshape @C20 0 Extensions : map[string]any
+//@ func drillIntoField
+//@   loop 0 invariant @C20 0 <= i
+//@   loop 0 invariant @C20 hasFields ==> reflNumField(val) > 0
+//@   option safety-tags C20
+//@   tag C20
